@@ -26,7 +26,7 @@ reg(Spec("C16", "c16_btdmp.cpp", needs=("lib",),
               "aimed at frame boundaries, Skip(k) with k in {0,1,h-1,h,random} against the reported horizon) on the real "
               "Teakra::Btdmp with a period chosen per history from {1,2,3,7,1000,4096,65535} U small U uniform; oracle = "
               "FIFO/frame-clock model + twin doing k x Tick() for every Skip(k) + conservation of words after a final drain. "
-              "Non-trivial = at least one frame carrying a real (non-filler) word; distinct by hash of (period, op list).",
+              "core_timing_btdmp (20% of the cases): the port next to a free-running timer on one CoreTiming; CoreTiming::Skip(max) vs that many CoreTiming::Tick() on a twin (frames per operation, flags, interrupts), also while transmitting with an empty queue. Non-trivial = at least one frame carrying a real (non-filler) word; distinct by hash of (period, op list).",
          assumptions=["period >= 1 and fixed before the first tick (not reachable from MMIO; the source calls it a placeholder)",
                       "the frame clock only advances while transmission is enabled and keeps its phase across disable/enable",
                       "per skip at most min(h, 3*period+5, 20000) cycles so the ticking twin stays affordable"]))
@@ -37,7 +37,7 @@ reg(Spec("C14", "c14_apbp.cpp", needs=("lib",),
               "and DSP-side MMIO accesses (REPLYi write/read-back, CMDi read, 0x0CC/0x0CE/0x0D0 writes, CIi bits of 0x0D4) through the "
               "host MMIO accessor, its 0x800 mirrors and the DSP data path, on one real Teakra instance re-initialised per case; "
               "after every op all observable APBP state is compared with a two-direction mailbox/semaphore model and the interrupt "
-              "rule is checked (ICU IRQ 14 / host handlers). DSP-side writes of arbitrary values to the two status registers are part of the histories (the flags are live views: no effect). Non-trivial = history with >=1 send and >=1 semaphore op; distinct by op-list hash.",
+              "rule is checked (ICU IRQ 14 / host handlers). DSP-side writes of arbitrary values to the two status registers are part of the histories (the flags are live views: no effect). The host's semaphore handler can be switched to re-enter the API (acknowledge all / mask all / acknowledge given bits); the model applies what the handler did after judging the interrupt rule on the state the operation itself produced. Non-trivial = history with >=1 send and >=1 semaphore op; distinct by op-list hash.",
          assumptions=["channel index < 3 (the API contract)", "0x0D8 bit 9 (S', documented as the CPU-side flag but wired to the DSP-side one) is not checked",
                       "the signal flag of the dsp->cpu direction has no register; it is checked through the interrupt rule only"]))
 
@@ -64,7 +64,9 @@ reg(Spec("C02", "c02_decode.cpp", needs=("shim", "optable"), custom="exhaustive"
               "Run() dispatches through); O3 execution from 4 (quick) / 16 (thorough) (second word, start "
               "address, state) combinations: fetch log and pc advance equal the declared length, a one-word form is followed by a "
               "fetch from A+1, and execution never trips the decoder's own consistency assertion; O5 the disassembler's text / length for "
-              "(word, second word) is the same right after another second word of the same opcode as after another opcode; O4 every bit declared Unused<> in the table text, flipped, on 32/128 generated states: same text, same "
+              "(word, second word) is the same right after another second word of the same opcode as after another opcode; O6 a two-word "
+              "opcode executed twice at one address with different second words behaves, the second time, as on a second core that never "
+              "ran the first; O4 every bit declared Unused<> in the table text, flipped, on 32/128 generated states: same text, same "
               "execution, and declared set == set of bits the recorder shows to be don't-care. Non-trivial = defined word; distinct = the word.",
          assumptions=["control-transfer handlers (br, brr, call*, ret*, movpdw, mov_pc) are exempt from the pc-advance clause, not from the fetch clause",
                       "instructions ending in Unimplemented / deliberate ASSERT make no length claim",
@@ -180,12 +182,13 @@ reg(Spec("C17", "c17_reset.cpp", needs=("shim", "optable"),
               "mirror cells; DMA channel window; AHBM; APBP "
               "reply/semaphore/interrupt-disable; BTDMP enable/FIFO; MIU pages/base) / SendData / RecvData / Set/Clear/MaskSemaphore / "
               "driver-style composites (audio port: clock word, FIFO words, enable, then ~200 or ~4000 idle cycles, the frame period being "
-              "4096; timer: start, configuration with restart, optionally MU off again, a few cycles) / whole-register-state pokes / "
+              "4096; timer: start, configuration with restart, optionally MU off again, a few cycles; DMA: a small external -> DSP transfer "
+              "on channel k, the AHBM connection / unit size reprogrammed or not) / whole-register-state pokes / "
               "Run(<=200) of small programs that leave latches, the idle flag, banks and loop frames "
               "dirty / AHBM host accessors; two real instances whose heap was pre-filled with different byte patterns; mode fresh: Q "
               "straight after construction on both; mode reset: construct;P;Reset;Q vs construct;Reset;Q; the observation (all "
               "registers incl. banks, memory digest, masked read-back of ~140 modelled MMIO registers, host views) and the ordered "
-              "callback log are compared after every call of Q. Non-trivial = P dirties >= 3 kinds of state and Q is non-empty "
+              "callback log are compared after every call of Q; a dozen never-written plain-storage cells are read back before Q. Non-trivial = P dirties >= 3 kinds of state and Q is non-empty "
               "(fresh mode: Q non-empty); distinct by hash of the encoded case.",
          assumptions=["backing-storage bits of MMIO bit-field cells that no peripheral models are masked out of the observation",
                       "the external (AHBM) world is the caller's: both sides continue with a fresh external memory after Reset",
@@ -244,7 +247,7 @@ reg(Spec("C07", "c07_interrupts.cpp", needs=("shim", "optable"),
               "distinguishable banks), Exec(eint | dint | reti | retic | rep #n), TimerStart(timer, 1..5 cycles), host SendData, a "
               "one-word DMA start, the audio port running empty after 4096-cycle frames. After every instruction step the full "
               "register state, the two stack words at sp and the controller's pending register are compared with the independent "
-              "ICU + core interrupt model (context stores included). Non-trivial = history with >= 1 handler entry; distinct by "
+              "ICU + core interrupt model (context stores included). Instruction steps include eint / dint / reti / retic / rep and the program writing st0, st2, mod3 or stt2 with an immediate (writable fields take the value, the pending latches and everything outside the word stay). Non-trivial = history with >= 1 handler entry; distinct by "
               "hash of the op list.",
          assumptions=["when one trigger raises several vectored IRQs the property does not say whose vector is latched: any of them is accepted",
                       "vector addresses and the sled stay below the data area (program and data space share one array)",
@@ -294,7 +297,8 @@ reg(Spec("C19", "c19_threads.cpp", variant="tsan", needs=("optable", "lib"), wor
               "echoes the semaphore, rewrites the interrupt-disable register and acknowledges (a generated subset of the channels is "
               "read; the others stay full after their first send; in half of the schedules the handler reads CMDi only when the "
               "status register flags it ready, in half the host reads only after RecvDataIsReady, in half the APBP interrupt switches the "
-              "register context (ic0 = 1, retic)), Sync ops = quiescent points "
+              "register context (ic0 = 1, retic), the main program may leave repc != 0, the routine may save / restore st2, the host's "
+              "semaphore handler may acknowledge inside the callback), Sync ops = quiescent points "
               "(host waits for >= 4000 further DSP cycles, then the last value of every echoed channel must have made the round "
               "trip and be consumed or still flagged ready). Oracle: ThreadSanitizer report "
               "(exit code 66) = violation; per reading thread the values read are sent values in non-decreasing order; after "
